@@ -30,6 +30,7 @@ class _Monitor:
         self.last_iterations = 0
         self.last_steps = 0
         self.installed = False
+        self.available = True
 
     def reset(self):
         self.depth = 0
@@ -62,9 +63,19 @@ def install():
         return
     import numpoly
 
-    mod = sys.modules["numpoly.poly_function.divide.divmod"]
-    orig_cand = mod.get_division_candidate
-    orig_divmod = mod.poly_divmod
+    _DEFAULTS.update(numpoly.get_options(defaults=True))
+    MON.installed = True
+    try:
+        mod = sys.modules["numpoly.poly_function.divide.divmod"]
+        orig_cand = mod.get_division_candidate
+        orig_divmod = mod.poly_divmod
+    except (KeyError, AttributeError):
+        # the division loop was refactored away from where the monitor hooks in: run without it
+        # (a non-terminating division then ends in the per-case watchdog = inconclusive, never in a
+        # false alarm); the poison allocator below does not depend on it
+        MON.available = False
+        _install_poison(numpoly)
+        return
 
     def cand(x1, x2, *a, **k):
         if MON.seen is not None:
@@ -137,6 +148,10 @@ def install():
                 except Exception:
                     pass
 
+    _install_poison(numpoly)
+
+
+def _install_poison(numpoly):
     # poison allocator
     orig_new = numpoly.ndpoly.__new__
 
@@ -154,9 +169,6 @@ def install():
 
     new.__wrapped__ = orig_new
     numpoly.ndpoly.__new__ = staticmethod(new)
-
-    _DEFAULTS.update(numpoly.get_options(defaults=True))
-    MON.installed = True
 
 
 def last_iterations():
